@@ -3,6 +3,7 @@ parts of the prescription lensgen does not (vertex shift dz for the tilt about t
 prescription extraction, and the implementation-level oracle (relations stated directly on optiland)."""
 import copy
 import math
+import random
 import warnings
 
 import numpy as np
@@ -34,15 +35,52 @@ def sym_spec(rng, n=None, ideal_only=False, allow=None, apertures=True, finite=N
     return spec
 
 
-def build(spec):
+def build(spec, route=None, rng=None):
     """lensgen.build + optional per-surface 'dz' (vertex shift along z that leaves the other vertices in place)"""
     import contextlib, io
     with contextlib.redirect_stdout(io.StringIO()):      # optiland prints a catalogue warning per glass lookup
-        o = lensgen.build(spec)
+        o = lensgen.build(spec) if route in (None, 'direct') else lensgen.build_via(spec, route, rng or random.Random(0))
     for i, s in enumerate(spec['surfaces']):
         if s.get('dz'):
             o.surface_group.surfaces[i + 1].geometry.cs.z += s['dz']
     return o
+
+
+def _ideal(n):
+    return ['ideal', n, 0.0]
+
+
+def corpus():
+    """fixed lenses (present for every seed) for the classes of descriptions a random draw reaches too rarely:
+    finite conjugates with the stop ON and BEHIND the first surface under every system-aperture type and both field types,
+    and an infinite-conjugate lens with plane surfaces next to curved ones"""
+    a = [{'type': 'standard', 'radius': 38.0, 'thickness': 5.0, 'is_stop': True, 'material': _ideal(1.62)},
+         {'type': 'standard', 'radius': -75.0, 'thickness': 2.2, 'material': 'air'},
+         {'type': 'standard', 'radius': -48.0, 'thickness': 2.0, 'material': _ideal(1.75)},
+         {'type': 'standard', 'radius': -110.0, 'thickness': 90.0, 'material': 'air'}]
+    b = [{'type': 'standard', 'radius': 60.0, 'thickness': 4.5, 'material': _ideal(1.52)},
+         {'type': 'standard', 'radius': -150.0, 'thickness': 3.5, 'material': 'air'},
+         {'type': 'standard', 'radius': INF, 'thickness': 2.5, 'is_stop': True, 'material': 'air'},
+         {'type': 'standard', 'radius': -55.0, 'thickness': 1.8, 'material': _ideal(1.68)},
+         {'type': 'standard', 'radius': 220.0, 'thickness': 110.0, 'material': 'air'}]
+    c = [{'type': 'standard', 'radius': 42.0, 'thickness': 4.0, 'material': _ideal(1.6)},
+         {'type': 'standard', 'radius': -64.0, 'thickness': 3.0, 'material': 'air'},
+         {'type': 'standard', 'radius': INF, 'thickness': 5.0, 'is_stop': True, 'material': 'air'},
+         {'type': 'standard', 'radius': INF, 'thickness': 2.5, 'material': _ideal(1.7)},
+         {'type': 'standard', 'radius': -36.0, 'thickness': 32.0, 'material': 'air'}]
+    out = []
+    for surfs, obj in ((a, 95.0), (b, 70.0)):
+        for k, ap in enumerate((['EPD', 8.0], ['imageFNO', 5.0], ['objectNA', 0.08])):
+            ft = 'object_height' if k != 1 else 'angle'
+            mf = 5.0 if ft == 'object_height' else 3.0
+            out.append({'object_thickness': obj, 'surfaces': copy.deepcopy(surfs), 'aperture': ap, 'field_type': ft,
+                        'fields': [[0.0, 0.0, 0.0, 0.0], [0.6 * mf, 0.0, 0.0, 0.0], [mf, 0.0, 0.0, 0.0]],
+                        'wavelengths': [[0.55, True]], 'telecentric': False})
+    for ap in (['EPD', 8.0], ['imageFNO', 4.5]):
+        out.append({'object_thickness': INF, 'surfaces': copy.deepcopy(c), 'aperture': ap, 'field_type': 'angle',
+                    'fields': [[0.0, 0.0, 0.0, 0.0], [4.0, 0.0, 0.0, 0.0], [7.0, 0.0, 0.0, 0.0]],
+                    'wavelengths': [[0.55, True]], 'telecentric': False})
+    return out
 
 
 def trace(o, Hx, Hy, Px, Py, w):
@@ -75,10 +113,20 @@ def scaled_spec(spec, s):
     return sp
 
 
-def dummy_spec(spec, gap, frac):
-    """insert a plane between equal media in gap `gap` (0 = after surface 1 ... len-1 = before the image),
-    at fraction `frac` of the gap"""
+def dummy_spec(spec, gap, frac, front=None):
+    """insert a plane between equal media in gap `gap` (0 = after surface 1 ... len-1 = before the image; -1 = the OBJECT
+    gap: the dummy becomes surface 1 and the library re-bases every vertex), at fraction `frac` of the gap.
+    For an object at infinity the object gap has no fractions: the dummy is put `front` lens units before surface 1."""
     sp = copy.deepcopy(spec)
+    if gap == -1:
+        t = sp['object_thickness']
+        if math.isfinite(t):
+            sp['object_thickness'] = t * frac
+            d_t = t * (1 - frac)
+        else:
+            d_t = front
+        sp['surfaces'].insert(0, {'type': 'standard', 'radius': INF, 'thickness': d_t, 'material': 'air', 'is_stop': False})
+        return sp
     su = sp['surfaces'][gap]
     t = su['thickness']
     m = su.get('material', 'air')
